@@ -6,6 +6,7 @@ import random
 class Prop(PoolProp):
     pid = "C02"
     focus = "termination"
+    real_scenarios = ("late_exhaustion", "late_items_flow_control", "factory_quota_two_calls", "factory_quota_bounded")
     rule = ("as C01, with schedules biased to starve the feeding thread (late exhaustion of the input), the consumer or the "
             "workers, and bounded result queues that trigger flow control; oracle: the run ends with every thread finished (no "
             "state in which no thread can move while the caller has not finished), incl. leaving the pool context; the D19 "
